@@ -37,7 +37,7 @@ struct Template {
     bool built = false;
 } g_t;
 
-static void build_template()
+static void build_template(const std::string &prop)
 {
     if (g_t.built)
         return;
@@ -62,7 +62,10 @@ static void build_template()
                 groups.push_back(kv.second);
         grammar::set_rhyme_groups(groups);
     }
-    for (auto &spec : std::vector<std::pair<std::string, int>> { { "en", 2 }, { "enc", 1 }, { "fr", 1 } })
+    std::vector<std::pair<std::string, int>> specs = { { "en", 2 }, { "enc", 1 }, { "fr", 1 } };
+    if (prop == "C18")
+        specs.push_back({ "env", 1 }); // variance normalisation on (a front-end configuration the models do not use)
+    for (auto &spec : specs)
         for (int i = 0; i < spec.second; ++i) {
             decoder_t *d = make_decoder(spec.first);
             if (!d) {
@@ -261,9 +264,47 @@ struct Exec {
                 bad("phones_vs_dictionary", "count", where + " has " + std::to_string(we.nchild) + " phones, the dictionary pronunciation " + std::to_string(pron.size()));
             int pnext = we.start;
             int64_t psum = 0, pdur = 0;
+            // the model's own answer to "this phone's emitting states": the senones of the triphone (phone, left
+            // neighbour, right neighbour, position in word) in the model definition, neighbours taken across word
+            // boundaries from the adjacent alignment words and silence outside the utterance
+            bin_mdef_t *mdef = s.d->acmod->mdef;
+            auto ci_of = [&](const std::string &nm) { return bin_mdef_ciphone_id(mdef, nm.c_str()); };
+            auto edge_phone = [&](size_t wi, bool last) -> int {
+                char *ph = decoder_lookup_word(s.d, r.words[wi].name.c_str());
+                if (!ph)
+                    return -1;
+                std::string t = ph;
+                ckd_free(ph);
+                size_t a = last ? t.find_last_of(' ') : std::string::npos, b = last ? std::string::npos : t.find(' ');
+                std::string nm = last ? (a == std::string::npos ? t : t.substr(a + 1)) : t.substr(0, b);
+                return ci_of(nm);
+            };
+            const int sil = bin_mdef_silphone(mdef);
+            const int word_lc = w == 0 ? sil : edge_phone(w - 1, true), word_rc = w + 1 == r.words.size() ? sil : edge_phone(w + 1, false);
             for (int k = 0; k < we.nchild && pi < r.phones.size(); ++k, ++pi) {
                 const AlEnt &pe = r.phones[pi];
                 std::string pw = where + " phone " + std::to_string(k) + " '" + pe.name + "'";
+                if (pron.size() == (size_t)we.nchild && pe.nchild == n_emit && si + (size_t)n_emit <= r.states.size() && !config_bool(s.d->config, "cionly")) {
+                    int b = ci_of(pron[(size_t)k]);
+                    int l = k == 0 ? word_lc : ci_of(pron[(size_t)k - 1]);
+                    int rr = k + 1 == we.nchild ? word_rc : ci_of(pron[(size_t)k + 1]);
+                    word_posn_t pos = we.nchild == 1 ? WORD_POSN_SINGLE : k == 0 ? WORD_POSN_BEGIN : k + 1 == we.nchild ? WORD_POSN_END : WORD_POSN_INTERNAL;
+                    if (b >= 0 && l >= 0 && rr >= 0) {
+                        int pid = bin_mdef_phone_id_nearest(mdef, b, l, rr, pos);
+                        int ssid = bin_mdef_pid2ssid(mdef, pid);
+                        for (int q = 0; q < n_emit; ++q) {
+                            int want = bin_mdef_sseq2sen(mdef, ssid, q);
+                            const std::string &got = r.states[si + (size_t)q].name;
+                            if (got != std::to_string(want)) {
+                                bad("states_vs_model", we.nchild == 1 ? "one_phone_word" : k == 0 ? "first_phone" : k + 1 == we.nchild ? "last_phone" : "inner_phone",
+                                    pw + " state " + std::to_string(q) + " is senone " + got + ", the model's " + pron[(size_t)k] + "(" + bin_mdef_ciphone_str(mdef, l) + "," +
+                                        bin_mdef_ciphone_str(mdef, rr) + ") has senone " + std::to_string(want));
+                                break;
+                            }
+                        }
+                        out.probes["align.states_vs_model_checked"]++;
+                    }
+                }
                 if ((size_t)k < pron.size() && pe.name != pron[(size_t)k])
                     bad("phones_vs_dictionary", "name", pw + " but the dictionary says '" + pron[(size_t)k] + "'");
                 if (pe.start != pnext)
@@ -1155,6 +1196,34 @@ struct Exec {
             out.checks++;
             if (s1 != s2)
                 viol("C18", "cmn_roundtrip", "fixpoint", "CMN exported as '" + s1 + "' re-imports as '" + s2 + "'", opi);
+            // "re-imported to the same values" includes the accumulators behind the means: recomputing the means from
+            // them must give the imported values back (up to float rounding of x * window / window and 6 printed digits)
+            const char *c3 = decoder_get_cmn(s.d, 1);
+            std::string s3 = c3 ? c3 : "";
+            auto nums = [](const std::string &t) {
+                std::vector<double> v;
+                const char *p = t.c_str();
+                while (*p) {
+                    char *e;
+                    double x = strtod(p, &e);
+                    if (e == p)
+                        break;
+                    v.push_back(x);
+                    p = *e == ',' ? e + 1 : e;
+                }
+                return v;
+            };
+            std::vector<double> a = nums(s1), b = nums(s3);
+            out.checks++;
+            bool same = a.size() == b.size();
+            size_t wi = 0;
+            for (; same && wi < a.size(); ++wi)
+                if (!(std::fabs(a[wi] - b[wi]) <= 1e-3 + 1e-4 * std::fabs(a[wi]))) {
+                    same = false;
+                    break;
+                }
+            if (!same)
+                viol("C18", "cmn_roundtrip", "after_update", "CMN imported as '" + s1 + "' reads '" + s3 + "' once the means are recomputed from the imported state (value " + std::to_string(wi) + ")", opi);
             out.probes["c18.cmn_roundtrips"]++;
         }
     }
@@ -2008,7 +2077,7 @@ struct DecWorld : World {
         return tier ? 60000 : 1600;
     }
     int watchdog_s(const std::string &) const override { return 120; }
-    void setup(const std::string &, int) override { build_template(); }
+    void setup(const std::string &p, int) override { build_template(p); }
     std::string rule(const std::string &p) const override
     {
         std::string common = "one run = a forked copy of a per-worker template process holding initialised decoders (en-us, en-us compallsen, fr-fr; small dictionaries served by the "
@@ -2167,6 +2236,8 @@ struct DecWorld : World {
         } else if (prop == "C18") {
             // the hostile channel, CMN carried across 3-6 utterances and exported/imported between them
             std::string t = r.chance(0.6) ? "enc" : pick_tmpl(r);
+            if (r.chance(0.15))
+                t = "env";
             add_dec(t);
             g.allow_align = false;
             std::string lng = lang_of(t);
@@ -2215,6 +2286,11 @@ struct DecWorld : World {
                 f.set("rep", (long long)std::max<int64_t>(1, left / chunk + 1));
                 if (buffered && !(long_stream && u == 0))
                     f.set("ns", true);
+                if (!(long_stream && u == 0) && r.chance(0.25)) { // the whole utterance in one call: batch normalisation
+                    f.set("len", (long long)std::max<int64_t>(1, left));
+                    f.set("rep", 1);
+                    f.set("full", true);
+                }
                 g.push(f, 0);
                 if (r.chance(0.5)) {
                     Json q = Json::object();
